@@ -49,7 +49,7 @@ func (v *varintLengthFieldCodec) HandleRead(ctx netty.InboundContext, message ne
 	utils.AssertIf(frameLength > uint64(v.maxFrameLength),
 		"frame length too large, frameLength(%d) > maxFrameLength(%d)", frameLength, v.maxFrameLength)
 
-	ctx.HandleRead(io.LimitReader(reader, int64(frameLength)))
+	ctx.HandleRead(utils.ExactReader(io.LimitReader(reader, int64(frameLength)), int64(frameLength)))
 }
 
 func (v *varintLengthFieldCodec) HandleWrite(ctx netty.OutboundContext, message netty.Message) {
